@@ -250,11 +250,13 @@ class Net:
                 self.emit(k="idle")
                 break
             self.now = nxt
+        ev = list(self.ev)          # (closing a loop finalises pending coroutines: their finally blocks still send -- not part of the run)
         for n in self.nodes.values():
+            n.alive = False
             n.loop.shutdown()
         import random
         sd.random = random
-        return self.ev
+        return ev
 
 
 class _Rand:
